@@ -138,6 +138,7 @@ type vC02NObs struct {
 	Leak   []int          `json:"leak"`   // CIDs pinned only by the untrusted peer that appeared at a trusted peer
 	Heads  []int          `json:"nheads"`
 	NoSync bool           `json:"nosync,omitempty"` // the compared peers did not reach the same heads within the (long) timeout
+	Issuers  [][]int     `json:"issuers"`   // per delta: the peers that published exactly this block (normally one)
 	Parents  [][]int     `json:"parents"`   // per delta (same order as Deltas): ids of the blocks it links to
 	AllTrust [][]int     `json:"all_trust"` // trusted_peers of every peer of the case ([-1] = trust all)
 	Links    [][2]int    `json:"links"`
@@ -295,7 +296,8 @@ func vC02NRun(t *testing.T, c vC02NCase) (obs vC02NObs) {
 		}
 		return true
 	}
-	made := map[string]int{}        // block (set id) -> the peer whose operation published it
+	issuers := map[string][]int{}   // block (set id) -> every peer whose operation published exactly this block
+	made := map[string]int{}        // block (set id) -> the peer whose operation published it first
 	lastMade := map[int]string{}    // peer -> the last block it published
 	peerOps := make([][]vc02NOp, total)
 	processed := func(i int, sid string) bool { // the block is in i's block store (go-ds-crdt stores a block, then merges it)
@@ -376,10 +378,12 @@ func vC02NRun(t *testing.T, c vC02NCase) (obs vC02NObs) {
 					}
 					if op.sid != "" {
 						lastMade[r] = op.sid
+						issuers[op.sid] = append(issuers[op.sid], r)
 					}
 				} else if op.sid != "" {
 					made[op.sid] = r
 					lastMade[r] = op.sid
+					issuers[op.sid] = append(issuers[op.sid], r)
 				}
 				peerOps[r] = append(peerOps[r], op)
 			}
@@ -559,6 +563,7 @@ func vC02NRun(t *testing.T, c vC02NCase) (obs vC02NObs) {
 			e.By = 99
 		}
 		obs.Deltas = append(obs.Deltas, e)
+		obs.Issuers = append(obs.Issuers, append([]int{}, issuers[sid]...))
 		ps := []int{}
 		for _, p := range dn.parents {
 			ps = append(ps, idOf[p])
@@ -720,7 +725,9 @@ func vC02NTerm(obs vC02NObs) string {
 	var dl, by, par []string
 	for i, d := range obs.Deltas {
 		dl = append(dl, fmt.Sprintf("mk_delta %d %d %s %s", d.ID, d.Prio, vc02CoqPairs(d.Adds), vc02CoqPairs(d.Rms)))
-		by = append(by, fmt.Sprintf("(%d, %d)", d.ID, d.By))
+		for _, p := range obs.Issuers[i] {
+			by = append(by, fmt.Sprintf("(%d, %d)", d.ID, p))
+		}
 		par = append(par, fmt.Sprintf("(%d, %s)", d.ID, cqListN(obs.Parents[i])))
 	}
 	trust := func(l []int) (bool, []int) {
